@@ -510,7 +510,7 @@ func (en *Engine) VerifyFunc(fc *FuncContract) (res *FuncResult) {
 			top.replay.EntryScript = strings.Replace(ctx.Script(ctx.Mark(), False, "entry context of "+fc.Key), "(assert (not false))\n", "", 1)
 		}
 	}()
-	rst, vals := fr.execBody(st)
+	rst, vals := fr.execBody(st.clone())
 	if rst != nil {
 		// postconditions
 		post := &Scope{fr: fr, st: rst, old: fr.entry, vars: map[string]Val{}, entry: sc.entry, pkg: fr.pkg}
@@ -546,7 +546,9 @@ func (en *Engine) VerifyFunc(fc *FuncContract) (res *FuncResult) {
 			for hn, srt := range top.heapSorts {
 				pre[hn] = fr.heap(fr.entry, hn, srt)
 			}
-			tg := fr.resolveTargets(sc, fc.Modifies)
+			esc := *sc
+			esc.st = fr.entry // targets denote locations of the entry state
+			tg := fr.resolveTargets(&esc, fc.Modifies)
 			fr.frameObligations(rst, pre, top.alloc0, tg, "frame", "", fn.Pos())
 		}
 	}
